@@ -33,6 +33,7 @@ type Result struct {
 	Traces      int64                  `json:"traces"`
 	Distinct    []string               `json:"distinct"`
 	Nontrivial  []string               `json:"nontrivial"`
+	StateKeys   []string               `json:"statekeys"`
 	Samples     []interface{}          `json:"samples"`
 	Violations  []*Violation           `json:"violations"`
 	Exhaustive  bool                   `json:"exhaustive"`
@@ -57,6 +58,7 @@ type Ctx struct {
 	traces     int64
 	distinct   map[uint64]struct{}
 	nontrivial map[uint64]struct{}
+	statekeys  map[uint64]struct{}
 	samples    []interface{}
 	viol       map[string]*Violation
 	caps       []string
@@ -110,6 +112,14 @@ func (c *Ctx) Trace(n int64) { c.mu.Lock(); c.traces += n; c.mu.Unlock() }
 func (c *Ctx) Distinct(s string) {
 	c.mu.Lock()
 	c.distinct[h64(s)] = struct{}{}
+	c.mu.Unlock()
+}
+
+// StateKey records a canonical state; the driver counts the union over all workers as states
+// (for explorations whose last level is split between workers).
+func (c *Ctx) StateKey(s string) {
+	c.mu.Lock()
+	c.statekeys[h64(s)] = struct{}{}
 	c.mu.Unlock()
 }
 
@@ -176,7 +186,7 @@ func Main(t *testing.T) {
 	if !ok {
 		t.Fatalf("no harness for %s", id)
 	}
-	c := &Ctx{T: t, ID: id, Tier: os.Getenv("VERIF_TIER"), NShards: 1, distinct: map[uint64]struct{}{}, nontrivial: map[uint64]struct{}{},
+	c := &Ctx{T: t, ID: id, Tier: os.Getenv("VERIF_TIER"), NShards: 1, distinct: map[uint64]struct{}{}, nontrivial: map[uint64]struct{}{}, statekeys: map[uint64]struct{}{},
 		viol: map[string]*Violation{}, extra: map[string]interface{}{}, exhaustive: true, start: time.Now()}
 	if c.Tier == "" {
 		c.Tier = "quick"
@@ -233,7 +243,7 @@ func keys(m map[uint64]struct{}) []string {
 
 func (c *Ctx) write() {
 	r := Result{ID: c.ID, Shard: fmt.Sprintf("%d/%d", c.Shard, c.NShards), Evaluations: c.evals, States: c.states, Transitions: c.trans,
-		Traces: c.traces, Distinct: keys(c.distinct), Nontrivial: keys(c.nontrivial), Samples: c.samples, Exhaustive: c.exhaustive,
+		Traces: c.traces, Distinct: keys(c.distinct), Nontrivial: keys(c.nontrivial), StateKeys: keys(c.statekeys), Samples: c.samples, Exhaustive: c.exhaustive,
 		Caps: c.caps, Extra: c.extra, WallS: time.Since(c.start).Seconds()}
 	sigs := make([]string, 0, len(c.viol))
 	for s := range c.viol {
@@ -249,7 +259,7 @@ func (c *Ctx) write() {
 		c.T.Fatal(err)
 	}
 	if out == "" {
-		r.Distinct, r.Nontrivial = nil, nil
+		r.Distinct, r.Nontrivial, r.StateKeys = nil, nil, nil
 		b, _ = json.MarshalIndent(r, "", " ")
 		fmt.Println(string(b))
 		fmt.Printf("distinct=%d nontrivial=%d\n", len(c.distinct), len(c.nontrivial))
